@@ -194,11 +194,13 @@ func tryFindFirstCharClass(node *RegexNode, ccIn **CharSet) int {
 		}
 		start := tryFindFirstCharClass(node.Children[branchStart], ccIn)
 		next := tryFindFirstCharClass(node.Children[branchStart+1], ccIn)
-		if start == -1 || next == -1 {
-			return -1
-		}
+		// a branch that could not be processed fails the whole analysis, even
+		// when the other branch is nullable
 		if start == 0 || next == 0 {
 			return 0
+		}
+		if start == -1 || next == -1 {
+			return -1
 		}
 		return 1
 
